@@ -634,7 +634,8 @@ def rule_roundtrip(ctx) -> None:
         ("CmdInstallKey", [{"flags": E(CMD, "EnumInsKey").ABS, "cert_fmt": E(CMD, "EnumCertFormat").X509, "hash_alg": alg.SHA256, "src_index": 2, "tgt_index": 3, "location": 0x1000}]),
         ("CmdWriteData", [{"numbytes": 4, "ops": E(CMD, "EnumWriteOps").SET_BITMASK, "data": ((0x1000, 5), (0x2000, 7))}, {"numbytes": 2, "ops": E(CMD, "EnumWriteOps").WRITE_VALUE, "data": ((0x30, 0xFFFF),)}]),
         ("CmdCheckData", [{"numbytes": 2, "ops": E(CMD, "EnumCheckOps").ANY_CLEAR, "address": 0x11223344, "mask": 0xFF00, "count": None},
-                          {"numbytes": 4, "ops": E(CMD, "EnumCheckOps").ALL_SET, "address": 0x40, "mask": 1, "count": 5}]),
+                          {"numbytes": 4, "ops": E(CMD, "EnumCheckOps").ALL_SET, "address": 0x40, "mask": 1, "count": 5},
+                          {"numbytes": 1, "ops": E(CMD, "EnumCheckOps").ALL_CLEAR, "address": 0x44, "mask": 0x80, "count": 0}]),  # a count of 0 is a count
     ]
     roundtrip.check_classes(ctx, "C07.cmd-roundtrip", CMD, cmds, hx, floor=8)
 
